@@ -80,7 +80,7 @@ def make_case(index, rng, tier):
             scripts[str(age)] = {"term_delay": round(rng.uniform(0.1, 1.0), 2)}
     boot_fail = None
     if rng.randrange(12) == 0:
-        boot_fail = {"age": rng.randrange(1, 8), "code": rng.choice([3, 4])}
+        boot_fail = {"age": rng.randrange(1, 8), "code": rng.choice([3, 4]), "via": rng.choice(["load", "load", "post_init"])}
         if rng.randrange(2) == 0:
             # the application cannot be loaded at all: EVERY worker fails, after an import that takes a moment, one after the other -
             # also while the master is already shutting down because of the first
@@ -114,10 +114,11 @@ def run(case, choices):
             s["die_how"] = tuple(s["die_how"])
     bf = case["boot_fail"]
     if bf:
-        scripts[bf["age"]] = {"boot": "exit%d" % bf["code"]}
+        bkind = "post_init3" if bf.get("via") == "post_init" and bf["code"] == 3 else "exit%d" % bf["code"]
+        scripts[bf["age"]] = {"boot": bkind}
         if bf.get("all"):
             for a_ in range(1, 16):
-                scripts[a_] = {"boot": "exit%d" % bf["code"], "boot_delay": round(bf["delay"] + bf["stagger"] * (a_ - 1), 2)}
+                scripts[a_] = {"boot": bkind, "boot_delay": round(bf["delay"] + bf["stagger"] * (a_ - 1), 2)}
     w = master.World(sim, cfg, scripts=scripts)
     sf = case.get("sysfault")
     if sf:
@@ -256,6 +257,13 @@ def run(case, choices):
         for name, tb in sim.escaped:
             if name == "master":
                 res.violate("C03:master-crashed", "an exception escaped the master's main loop: %s; %s" % (tb[-400:], ctx()))
+        if state["boot_exit"] is None and w.boot_failures and m.state == "running":
+            # the exit status is what tells the master: a worker that failed during its boot but left with another status is respawned for ever
+            pid_, code_, at_ = w.boot_failures[0]
+            pr_ = sim.procs.get(pid_)
+            res.violate("C03:boot-failure-not-fatal:%d" % code_,
+                        "worker %d failed while booting at t=%.2f (it owes exit status %d, it left with wait-status %r) and the master is still "
+                        "running at t=%.2f after %d boot failures; %s" % (pid_, at_, code_, getattr(pr_, "status", None), sim.now, len(w.boot_failures), ctx()))
         if state["boot_exit"] is not None:
             code, at = state["boot_exit"]
             sim.probe("boot_failure_seen")
